@@ -557,6 +557,46 @@ fn fuzz(corpus_path: &str, seed: u64, iters: u64, out_path: &str) {
 }
 
 /// L1c: mutants of the corpus items that lie inside the model's fragment, as S-expression cases for `drv ext`
+/// spell the name of one helper attribute differently: `#[ord(..)]` -> `#[r#ord(..)]`, `#[derive_ex(..)]` ->
+/// `#[derive_ex::derive_ex(..)]` / `#[::derive_ex::derive_ex(..)]` / `#[r#derive_ex(..)]` (F34); recursively, so that
+/// attributes of fields and variants are reached
+fn respell(ts: TokenStream, rng: &mut Rng) -> TokenStream {
+    let tts: Vec<TokenTree> = ts.into_iter().collect();
+    let mut out: Vec<TokenTree> = Vec::with_capacity(tts.len());
+    let mut k = 0;
+    while k < tts.len() {
+        let is_pound = matches!(&tts[k], TokenTree::Punct(p) if p.as_char() == '#');
+        match (&tts[k], k > 0 && matches!(&tts[k - 1], TokenTree::Punct(p) if p.as_char() == '#')) {
+            (TokenTree::Group(g), true) if g.delimiter() == proc_macro2::Delimiter::Bracket => {
+                let inner: Vec<TokenTree> = g.stream().into_iter().collect();
+                let head = match inner.first() { Some(TokenTree::Ident(i)) => i.to_string(), _ => String::new() };
+                let single = !matches!(inner.get(1), Some(TokenTree::Punct(p)) if p.as_char() == ':');
+                if single && ser::HELPER_NAMES.contains(&head.as_str()) && rng.below(2) == 0 {
+                    let rest: TokenStream = inner[1..].iter().cloned().collect();
+                    let new_head = match (head.as_str(), rng.below(4)) {
+                        ("derive_ex", 0) => "derive_ex :: derive_ex".to_string(),
+                        ("derive_ex", 1) => ":: derive_ex :: derive_ex".to_string(),
+                        ("derive_ex", 2) => "r#derive_ex :: r#derive_ex".to_string(),
+                        (h, _) => format!("r#{h}"),
+                    };
+                    let mut ns = TokenStream::from_str(&new_head).unwrap();
+                    ns.extend(rest);
+                    out.push(TokenTree::Group(proc_macro2::Group::new(proc_macro2::Delimiter::Bracket, ns)));
+                } else {
+                    out.push(tts[k].clone());
+                }
+            }
+            (TokenTree::Group(g), _) => {
+                out.push(TokenTree::Group(proc_macro2::Group::new(g.delimiter(), respell(g.stream(), rng))));
+            }
+            _ => out.push(tts[k].clone()),
+        }
+        let _ = is_pound;
+        k += 1;
+    }
+    out.into_iter().collect()
+}
+
 fn mutants(corpus_path: &str, seed: u64, iters: u64) {
     std::panic::set_hook(Box::new(|_| {}));
     let text = std::fs::read_to_string(corpus_path).expect("corpus");
@@ -577,6 +617,7 @@ fn mutants(corpus_path: &str, seed: u64, iters: u64) {
         for _ in 0..1 + rng.below(3) {
             if rng.below(3) == 0 { a = mutate(a, da, &mut rng, 0); } else { i = mutate(i, di, &mut rng, 0); }
         }
+        if rng.below(6) == 0 { i = respell(i, &mut rng); }
         if syn::parse2::<syn::Item>(i.clone()).is_err() { continue; }
         let (at, it) = (a.to_string().replace('\n', " "), i.to_string().replace('\n', " "));
         // only what survives printing and re-lexing is source text
@@ -719,7 +760,15 @@ fn main() {
                 }
                 let whole = flatten(a.clone());
                 match split_real(a, &c.entry) {
-                    Ok(s) => Some(s),
+                    Ok(mut s) => {
+                        // cases from outside (L1c) may spell helper attribute names as raw identifiers / with a path
+                        if c.id.starts_with("ext/") || c.id.starts_with("mut/") {
+                            for seg in s.iter_mut() {
+                                seg.toks = ser::norm_attr_spelling(&seg.toks);
+                            }
+                        }
+                        Some(s)
+                    }
                     Err(e) => {
                         if let Some(w) = e.strip_prefix("ROUNDTRIP\u{1}") {
                             push(-1, "*", "roundtrip", "", w);
